@@ -15,7 +15,7 @@ NOTE = ("Theorem about a hand-written Lean 4 model (lean/QsModel), proved for al
         "Float rounding, pandas/NumPy/CPython internals are modelled, not verified (DESIGN.md 9, 10).")
 
 CLAIMED = {
-    'C01': ('K3', 'ledger invariant by induction over operation sequences (Lean) + stepwise correspondence of cash, history and aggregates', '6 C01'),
+    'C01': ('K3', 'ledger invariant by induction over operation sequences (Lean) + stepwise correspondence of cash, history and aggregates + structural tie for the Portfolio cash arithmetic and history events', '6 C01'),
     'C02': ('K3', 'holdings invariant by induction over fill/mark sequences (Lean) + stepwise correspondence of quantities and valuation + structural tie (source translated to Lean, proved equal to the model) for Position quantities and valuation', '6 C02'),
     'C03': ('K3', 'P&L identity by reachability invariant and field algebra (Lean) + bit-exact correspondence of Position P&L + structural tie for every Position formula', '6 C03'),
     'C04': ('K3', 'queue conservation / exactly-once by induction over op sequences (Lean) + stepwise correspondence of queues and fill order + structural tie for the fill kernel', '6 C04'),
